@@ -1,6 +1,7 @@
 package ptotal
 
 import (
+	"fmt"
 	"net"
 	"reflect"
 	"time"
@@ -265,15 +266,171 @@ type cfgEmbSlices struct {
 	Direct []Small
 }
 
-type fixedType struct {
+// ---- compiler-made config types with embedded shapes reflect.StructOf cannot build ----
+
+// Common is an embeddable struct with an ordinary (non-text) VALUE method.
+type Common struct {
+	Host string
+	Port int
+}
+
+// Addr is an ordinary method: it makes Common a "type with methods".
+func (c Common) Addr() string { return c.Host }
+
+// PtrCommon is an embeddable struct with an ordinary POINTER method.
+type PtrCommon struct {
+	Name  string
+	Level shape.Level
+}
+
+// Reset is an ordinary pointer-receiver method.
+func (p *PtrCommon) Reset() { *p = PtrCommon{} }
+
+// cfgEmbTime embeds a text-unmarshalable struct between ordinary fields.
+type cfgEmbTime struct {
+	A int
+	time.Time
+	B string
+}
+
+// cfgEmbMixed embeds a text struct by pointer next to a method-less struct.
+type cfgEmbMixed struct {
+	X []string
+	*shape.Stamp
+	shape.EmbA
+	Y int
+}
+
+// cfgEmbMethods embeds structs with ordinary methods, by value and by pointer.
+type cfgEmbMethods struct {
+	Common
+	*PtrCommon
+	Z shape.Name
+}
+
+// cfgEmbMethodsSwapped is the other way round.
+type cfgEmbMethodsSwapped struct {
+	Q int
+	*Common
+	PtrCommon
+	Wait time.Duration
+}
+
+// TimedNested is a named struct that itself embeds time.Time (and thereby
+// gets its UnmarshalText / UnmarshalJSON promoted).
+type TimedNested struct {
+	time.Time
+	Note string
+}
+
+// CommonNested embeds a struct with ordinary methods and a text struct by value.
+type CommonNested struct {
+	Common
+	shape.Stamp
+	Extra []int
+}
+
+// cfgNestedEmbTime holds such structs as nested members, by value and by pointer.
+type cfgNestedEmbTime struct {
+	Inner  TimedNested
+	PInner *TimedNested
+	Deep   CommonNested
+	PDeep  *CommonNested
+	Other  int
+}
+
+// TimedElem / ElemEmb / ElemCommon are element structs with embedded members.
+type TimedElem struct {
+	time.Time
+	Label string
+}
+
+type ElemEmb struct {
+	shape.EmbA
+	Extra int
+	Wait  *time.Duration
+}
+
+type ElemCommon struct {
+	*Common
+	Tags []string
+}
+
+// cfgElemEmbTime has slices, arrays and maps whose element struct embeds
+// time.Time, a method-less struct or a struct with methods.
+type cfgElemEmbTime struct {
+	Times   []TimedElem
+	ByKey   map[string]TimedElem
+	Ptrs    []*TimedElem
+	Pair    [2]TimedElem
+	Embs    []ElemEmb
+	EmbMap  map[string]ElemEmb
+	Commons []ElemCommon
+	N       int
+}
+
+// cfgEmbAll embeds one of each at the root.
+type cfgEmbAll struct {
+	time.Time
+	*shape.Stamp
+	Common
+	*PtrCommon
+	shape.EmbB
+	Direct []TimedElem
+	Last   shape.Level
+}
+
+type compiledType struct {
 	name string
 	t    reflect.Type
-	pt   reflect.Type // pointerified
+}
+
+// compiledTypes is append-only (cases name the types; decoderTypes stores indices).
+var compiledTypes = []compiledType{
+	{"cfgEmbTime", reflect.TypeOf(cfgEmbTime{})},
+	{"cfgEmbMixed", reflect.TypeOf(cfgEmbMixed{})},
+	{"cfgEmbMethods", reflect.TypeOf(cfgEmbMethods{})},
+	{"cfgEmbMethodsSwapped", reflect.TypeOf(cfgEmbMethodsSwapped{})},
+	{"cfgNestedEmbTime", reflect.TypeOf(cfgNestedEmbTime{})},
+	{"cfgElemEmbTime", reflect.TypeOf(cfgElemEmbTime{})},
+	{"cfgEmbAll", reflect.TypeOf(cfgEmbAll{})},
+}
+
+func compiledByName(name string) (reflect.Type, bool) {
+	for _, c := range compiledTypes {
+		if c.name == name {
+			return c.t, true
+		}
+	}
+	return nil, false
+}
+
+// pointerifySafe is Pointerify with a panic turned into an error: on trees
+// where Pointerify cannot represent a type the checks report that as a
+// violation instead of dying at package initialisation.
+func pointerifySafe(t reflect.Type, tmpl reflect.Value) (pt reflect.Type, err error) {
+	defer func() {
+		if r := recover(); r != nil {
+			err = fmt.Errorf("ptrify.Pointerify(%s) panicked: %v", t, r)
+		}
+	}()
+	return ptrify.Pointerify(t, tmpl), nil
+}
+
+type fixedType struct {
+	name   string
+	t      reflect.Type
+	pt     reflect.Type // pointerified
+	ptrErr error        // Pointerify panicked (pt is nil)
 }
 
 func mkFixed(name string, zero any) fixedType {
-	t := reflect.TypeOf(zero)
-	return fixedType{name: name, t: t, pt: ptrify.Pointerify(t, reflect.New(t).Elem())}
+	return mkFixedType(name, reflect.TypeOf(zero))
+}
+
+func mkFixedType(name string, t reflect.Type) fixedType {
+	pt, err := pointerifySafe(t, reflect.New(t).Elem())
+	return fixedType{name: name, t: t, pt: pt, ptrErr: err}
 }
 
 var decoderTypes = []fixedType{
@@ -283,6 +440,14 @@ var decoderTypes = []fixedType{
 	mkFixed("cfgNamed", cfgNamed{}),
 	mkFixed("cfgPtrElems", cfgPtrElems{}),   // appended: selectors of older corpus cases keep their meaning modulo the old length only for sel < 4
 	mkFixed("cfgEmbSlices", cfgEmbSlices{}), // index 5; the list is append-only (corpus cases store indices)
+	// indices 6..12: the compiler-made embedded shapes
+	mkFixedType(compiledTypes[0].name, compiledTypes[0].t),
+	mkFixedType(compiledTypes[1].name, compiledTypes[1].t),
+	mkFixedType(compiledTypes[2].name, compiledTypes[2].t),
+	mkFixedType(compiledTypes[3].name, compiledTypes[3].t),
+	mkFixedType(compiledTypes[4].name, compiledTypes[4].t),
+	mkFixedType(compiledTypes[5].name, compiledTypes[5].t),
+	mkFixedType(compiledTypes[6].name, compiledTypes[6].t),
 }
 
 // cfgEnv is the fixed type of the environment target: every predeclared type
